@@ -8,21 +8,24 @@ namespace Pg.C14
 def isPermPoint (k : Nat) (cands : List GSpec) (dist srt : Bool) : Bool :=
   decide (k > 1) && cands.length == k && dist && !srt
 
+/-- a permutation point: root element index (or `none` if nested), decisions of parent x, of parent y. -/
+abbrev PermPoint := Option Nat × List Nat × List Nat
+
 mutual
   /-- `possible_permutation_points`: walk both parents together while their values agree.
-  Each point is reported with its number of subchoices and, if it is an element of the root space
-  (the only place where `from_dict` honours the rewritten decision, see `recOrder`), its index. -/
-  def permWalk : GSpec → Option Nat → Bool → DNA → DNA → List (Option Nat × Nat)
+  Each point is reported with the two parents' decisions at it and, if it is an element of the root
+  space (the only place where `from_dict` honours the rewritten decision, see `place`), its index. -/
+  def permWalk : GSpec → Option Nat → Bool → DNA → DNA → List PermPoint
     | .space es, _, inCand, .space xs, .space ys => permWalkElems es none (inCand && es.length == 1) xs ys
     | .choices k cands dist srt, loc, coll, .choices xs, .choices ys =>
-        (if isPermPoint k cands dist srt then [(if coll then none else loc, k)] else []) ++
+        (if isPermPoint k cands dist srt then [(if coll then none else loc, xs.map subVal, ys.map subVal)] else []) ++
         permWalkSubs cands xs ys
     | _, _, _, _, _ => []
-  def permWalkElems : List GSpec → Option Nat → Bool → List DNA → List DNA → List (Option Nat × Nat)
+  def permWalkElems : List GSpec → Option Nat → Bool → List DNA → List DNA → List PermPoint
     | e :: es, top, c, x :: xs, y :: ys =>
         permWalk e top c x y ++ permWalkElems es (top.map (· + 1)) c xs ys
     | _, _, _, _, _ => []
-  def permWalkSubs : List GSpec → List DNA → List DNA → List (Option Nat × Nat)
+  def permWalkSubs : List GSpec → List DNA → List DNA → List PermPoint
     | cands, .sub _ v dx :: xs, .sub _ w dy :: ys =>
         (if v = w then
            match cands[v]?, dx with
@@ -36,7 +39,7 @@ mutual
 end
 
 /-- the walk from the root: the elements of the root space carry their index. -/
-def permPoints (g : GSpec) (x y : DNA) : List (Option Nat × Nat) :=
+def permPoints (g : GSpec) (x y : DNA) : List PermPoint :=
   match g, x, y with
   | .space es, .space xs, .space ys => permWalkElems es (some 0) false xs ys
   | _, _, _ => []
@@ -84,18 +87,15 @@ def pickPoint (n : Nat) : M Nat :=
     | [t] => pure t
     | _ => fail .desync
 
-/-- proposals for a point below a chosen candidate (`none`: `from_dict` takes the enclosing node
-whole, the rewritten decision is never looked at) or at root element `j`. -/
-def proposalsFor (loc : Option Nat) (x y : DNA) (start stop : Nat) : M (List DNA) :=
+/-- the four (parent × proposal) trees: a point below a chosen candidate (`none`) is never looked at by
+`from_dict` (it takes the enclosing node whole); at root element `j` each parent's own entries are
+re-ordered as the proposal says (`[subdna_map[v] for v in proposal]`). -/
+def place (loc : Option Nat) (x y : DNA) (c0 c1 : List Nat) : M (List DNA) :=
   match loc with
   | none => pure [x, x, y, y]
   | some j =>
     match elemOf x j, elemOf y j with
     | some ex, some ey =>
-      let vx := (entriesOf ex).map subVal
-      let vy := (entriesOf ey).map subVal
-      let c0 := orderChild vx vy start stop
-      let c1 := orderChild vy vx start stop
       match reorder (entriesOf ex) c0, reorder (entriesOf ex) c1,
             reorder (entriesOf ey) c0, reorder (entriesOf ey) c1 with
       | some x0, some x1, some y0, some y1 =>
@@ -104,27 +104,130 @@ def proposalsFor (loc : Option Nat) (x y : DNA) (start stop : Nat) : M (List DNA
       | _, _, _, _ => fail .key
     | _, _ => fail .desync
 
-def proposalsAt (p : Option (Option Nat × Nat)) (x y : DNA) : M (List DNA) :=
-  match p with
-  | none => fail .desync
-  | some (loc, k) =>
-    nextSample k 2 >>= fun ab =>
-      match ab with
-      | [a, b] => proposalsFor loc x y (min a b) (max a b)
-      | _ => fail .desync
+/-- `Permutation.recombine` for a `permutate` method given as a function of the two decision lists. -/
+def permProposals (permute : List Nat → List Nat → M (List Nat × List Nat)) (pts : List PermPoint)
+    (x y : DNA) : M (List DNA) :=
+  pickPoint pts.length >>= fun t =>
+    match pts[t]? with
+    | none => fail .desync
+    | some (loc, vx, vy) => permute vx vy >>= fun cs => place loc x y cs.1 cs.2
 
-/-- the four (parent × proposal) trees of one Order crossover, before `from_dict`. -/
-def orderProposals (pts : List (Option Nat × Nat)) (x y : DNA) : M (List DNA) :=
-  pickPoint pts.length >>= fun t => proposalsAt pts[t]? x y
-
-def recOrder (g : GSpec) : Op := fun pop =>
+def recPerm (permute : List Nat → List Nat → M (List Nat × List Nat)) (g : GSpec) : Op := fun pop =>
   match pop with
   | [x, y] =>
     if !popAligned pop then fail .unmodelled
     else if (permPoints g x.dna y.dna).isEmpty then pure pop        -- `return parents`
     else do
-      let raw ← orderProposals (permPoints g x.dna y.dna) x.dna y.dna
+      let raw ← permProposals permute (permPoints g x.dna y.dna) x.dna y.dna
       finishChildren g raw
   | _ => fail .value
+
+/-- the two cut points of Order / PMX: `sorted(random.sample(range(size), 2))` (one draw: two distinct
+indices never span the whole list). -/
+def cutPoints (size : Nat) : M (Nat × Nat) :=
+  nextSample size 2 >>= fun ab =>
+    match ab with
+    | [a, b] => pure (min a b, max a b)
+    | _ => fail .desync
+
+/-! ### Order crossover -/
+
+def permuteOrder (vx vy : List Nat) : M (List Nat × List Nat) :=
+  cutPoints vx.length >>= fun se => pure (orderChild vx vy se.1 se.2, orderChild vy vx se.1 se.2)
+
+def recOrder (g : GSpec) : Op := recPerm permuteOrder g
+
+/-! ### Partially mapped crossover (recombinators.py:852-902) -/
+
+/-- `while v in assigned: v = self[index_in_other(v)]`; `none`: KeyError, or the loop would not end. -/
+def pmxResolve (self other assigned : List Nat) : Nat → Nat → Option Nat
+  | 0, _ => none
+  | f + 1, v =>
+    if !assigned.contains v then some v
+    else match self[other.idxOf v]? with
+         | some w => pmxResolve self other assigned f w
+         | none => none
+
+/-- fills the positions `js` (in this order), threading the set of assigned values. -/
+def pmxFill (self other : List Nat) : List Nat → List Nat → Option (List Nat × List Nat)
+  | [], assigned => some ([], assigned)
+  | j :: js, assigned =>
+    match self[j]? with
+    | none => none
+    | some v0 =>
+      match pmxResolve self other assigned (self.length + 1) v0 with
+      | none => none
+      | some v =>
+        match pmxFill self other js (v :: assigned) with
+        | none => none
+        | some (vs, a) => some (v :: vs, a)
+
+def pmxChild (self other : List Nat) (start stop : Nat) : Option (List Nat) :=
+  let seg := (other.take stop).drop start
+  match pmxFill self other (List.range start) seg with
+  | none => none
+  | some (pre, a1) =>
+    match pmxFill self other ((List.range self.length).drop stop) a1 with
+    | none => none
+    | some (post, _) => some (pre ++ seg ++ post)
+
+def permutePMX (vx vy : List Nat) : M (List Nat × List Nat) :=
+  cutPoints vx.length >>= fun se =>
+    match pmxChild vx vy se.1 se.2, pmxChild vy vx se.1 se.2 with
+    | some c0, some c1 => pure (c0, c1)
+    | _, _ => fail .key
+
+def recPMX (g : GSpec) : Op := recPerm permutePMX g
+
+/-! ### Cycle crossover (recombinators.py:960-1009) -/
+
+abbrev Kids := List (Option Nat) × List (Option Nat)
+
+def kidGet (ch : Kids) (cid idx : Nat) : Option Nat :=
+  (if cid = 0 then ch.1 else ch.2).getD idx none
+
+def kidSet (ch : Kids) (cid idx v : Nat) : Kids :=
+  if cid = 0 then (ch.1.set idx (some v), ch.2) else (ch.1, ch.2.set idx (some v))
+
+/-- the nested function `pick(child_id, parent_id, index)`; `fuel` bounds the recursion depth. -/
+def cyclePick (p0 p1 : List Nat) : Nat → Nat → Nat → Nat → Kids → Option Kids
+  | 0, _, _, _, _ => none
+  | f + 1, cid, pid, idx, ch =>
+    if (kidGet ch cid idx).isSome then some ch
+    else
+      let self := if pid = 0 then p0 else p1
+      let other := if pid = 0 then p1 else p0
+      match self[idx]?, other[idx]? with
+      | some x, some y =>
+        let ch := kidSet ch cid idx x
+        if self.idxOf y < self.length then
+          match cyclePick p0 p1 f cid pid (self.idxOf y) ch with
+          | some ch => cyclePick p0 p1 f (1 - cid) (1 - pid) idx ch
+          | none => none
+        else none                              -- KeyError
+      | _, _ => none
+
+/-- `for i in range(size): if children[0][i] is None: child_id = random.choice([0, 1]); pick(...)`. -/
+def cycleLoop (p0 p1 : List Nat) : List Nat → Kids → M Kids
+  | [], ch => pure ch
+  | i :: is, ch =>
+    if (kidGet ch 0 i).isSome then cycleLoop p0 p1 is ch
+    else nextIdx .choice 2 >>= fun c =>
+      match cyclePick p0 p1 (2 * p0.length + 2) c 0 i ch with
+      | some ch => cycleLoop p0 p1 is ch
+      | none => fail .key
+
+def allSomeNat : List (Option Nat) → Option (List Nat)
+  | [] => some []
+  | some a :: t => (allSomeNat t).map (a :: ·)
+  | none :: _ => none
+
+def permuteCycle (vx vy : List Nat) : M (List Nat × List Nat) :=
+  cycleLoop vx vy (List.range vx.length) (List.replicate vx.length none, List.replicate vx.length none) >>= fun ch =>
+    match allSomeNat ch.1, allSomeNat ch.2 with
+    | some c0, some c1 => pure (c0, c1)
+    | _, _ => fail .key
+
+def recCycle (g : GSpec) : Op := recPerm permuteCycle g
 
 end Pg.C14
